@@ -3,6 +3,7 @@
 package corpus
 
 import (
+	"os"
 	"path"
 	"path/filepath"
 	"regexp"
@@ -45,7 +46,12 @@ type Case struct {
 	DoApprove bool
 }
 
-var RepoDir = "/repo"
+var RepoDir = func() string {
+	if d := os.Getenv("VERIF_REPO"); d != "" {
+		return d
+	}
+	return "/repo"
+}()
 
 func modelOf(base string) string {
 	prefix, _, _ := strings.Cut(strings.TrimSuffix(base, ".t"), "_")
